@@ -20,7 +20,7 @@ META = {
     "explanation": "The main loop has no CatchUnwindLayer (lib.rs: TODO), so any panic in a notification/event handler ends the "
                    "process. Engine G lists every panic-capable construct reachable from those handlers through crates glas and ide "
                    "(closures handed to spawn functions run elsewhere and are cut), and demands a justification for each. The "
-                   "check rejects what it cannot justify, like a borrow checker; the reviewed table keeps today's tree exact.",
+                   "check rejects what it cannot justify, like a borrow checker; the reviewed table keeps today's tree exact. M20 = C14 U12 (engine U: String::drain / slicing at a non-byte count panics on the unguarded main loop).",
     "not_decided": "panics deep inside dependencies that the asserting-API table does not list; protocol-level liveness; files vanishing from disk (I/O).",
     "trusted_base": ["the asserting-API table in lib/panics.py (read from the sources in the cargo registry)", "rustc MIR + callee resolution",
                      "tokio catches panics of spawned tasks; with_catch_unwind catches panics of request tasks"],
